@@ -245,6 +245,9 @@ func C15(tier string) {
 		}
 		targets = append(targets, target{fmt.Sprintf("racy%d", i), gen.RenderRacyProgram(all[lo:hi])})
 	}
+	if tier != "smoke" {
+		targets = append(targets, target{"escshapes", gen.RenderEscapeShapes()})
+	}
 	links := gen.AllLinks(nil, []string{"guard"})
 	r := core.NewRNG(run.SeedV, "c15-"+tier)
 	for p := 0; p < nChains; p++ {
